@@ -8,7 +8,7 @@ E1  spec/DirectInvoke.tla: ReceiveDirectInvoke over its four package variables a
     TLC must exhibit the violation (vacuity guard).  spec/TokenBucket.tla: RateBound, termination.
 E2  every edge of the parser graph is replayed on the real function (result, parsed mode, package variables,
     status, Error-Type, trailer announcement); every copy case enumerated by TLC (size x limit x chunking x
-    read failure) runs through SendDirectInvokeResponse in buffered and streaming mode with a stamping
+    read failure x runtime stalling at a position, interrupted by a reset) runs through SendDirectInvokeResponse in buffered and streaming mode with a stamping
     writer: trailer class, forwarded length, byte-for-byte prefix, and for streaming the volume-by-time bound
     burst + floor(t / 125 ms) x quantum (TokenBucket.tla, 40 ms slack), also with quantum > burst; a reset arriving during a throttled copy must end it Truncated.
 """
@@ -89,22 +89,24 @@ def run(ctx):
         for mode in ("Buffered", "Streaming"):
             if mode == "Buffered" and c["limit"] == -1:
                 continue
+            if mode == "Buffered" and c["stallAt"] >= 0:
+                continue        # only the streaming copy can be interrupted by a reset
             cases.append({"mode": mode, "limit": c["limit"], "size": c["size"], "chunk": c["chunk"],
-                          "failAt": c["failAt"], "reset": False,
+                          "failAt": c["failAt"], "stallAt": c["stallAt"], "reset": bool(o["reset"]),
                           "class": o["class"], "forwarded": o["forwarded"], "rate": 0, "burst": 0})
     # rate bound: minimum rate and burst, payload of three bursts; and a reset during the throttled copy
     kb = 1024
-    cases.append({"mode": "Streaming", "limit": -1, "size": 96 * kb, "chunk": 8 * kb, "failAt": -1, "reset": False,
+    cases.append({"mode": "Streaming", "limit": -1, "size": 96 * kb, "chunk": 8 * kb, "failAt": -1, "stallAt": -1, "reset": False,
                   "class": "Complete", "forwarded": 96 * kb, "rate": 32 * kb, "burst": 32 * kb})
-    cases.append({"mode": "Streaming", "limit": -1, "size": 400 * kb, "chunk": 16 * kb, "failAt": -1, "reset": True,
+    cases.append({"mode": "Streaming", "limit": -1, "size": 400 * kb, "chunk": 16 * kb, "failAt": -1, "stallAt": -1, "reset": True,
                   "class": "Truncated", "forwarded": 0, "rate": 32 * kb, "burst": 32 * kb})
     # a refill quantum larger than the burst size: the burst still bounds what goes out at once
-    cases.append({"mode": "Streaming", "limit": -1, "size": 256 * kb, "chunk": 16 * kb, "failAt": -1, "reset": False,
+    cases.append({"mode": "Streaming", "limit": -1, "size": 256 * kb, "chunk": 16 * kb, "failAt": -1, "stallAt": -1, "reset": False,
                   "class": "Complete", "forwarded": 256 * kb, "rate": 1024 * kb, "burst": 32 * kb})
-    cases.append({"mode": "Streaming", "limit": -1, "size": 192 * kb, "chunk": 64 * kb, "failAt": -1, "reset": False,
+    cases.append({"mode": "Streaming", "limit": -1, "size": 192 * kb, "chunk": 64 * kb, "failAt": -1, "stallAt": -1, "reset": False,
                   "class": "Complete", "forwarded": 192 * kb, "rate": 768 * kb, "burst": 64 * kb})
     if not ctx.quick:
-        cases.append({"mode": "Streaming", "limit": -1, "size": 300 * kb, "chunk": 64 * kb, "failAt": -1, "reset": False,
+        cases.append({"mode": "Streaming", "limit": -1, "size": 300 * kb, "chunk": 64 * kb, "failAt": -1, "stallAt": -1, "reset": False,
                       "class": "Complete", "forwarded": 300 * kb, "rate": 64 * kb, "burst": 64 * kb})
     cf = os.path.join(rc.scratch, "copy.json")
     json.dump(cases, open(cf, "w"))
@@ -131,7 +133,7 @@ def run(ctx):
         "copy_cases": crep["cases"], "rate_checks": crep["rate_checks"],
     })
     ctx.assumptions += ["header values are one representative per class", "the rate bound (burst + completed refill ticks x quantum) is checked on write time stamps with 40 ms of slack",
-                        "resets are injected once, 150 ms into a throttled copy"]
+                        "resets are injected once, 150 ms into a throttled or stalled copy"]
     if not ctx.violations and not ctx.known and rep["edges_covered"] != len(g.edges):
         raise Inconclusive("parser walk incomplete")
 
